@@ -58,10 +58,10 @@ fn main() {
             if thorough {
                 let sc = |n: usize| t1::Scope {
                     alpha: if n <= 3 { vec![b'a', b'\r', b'\n'] } else { vec![b'a', b'\n'] },
-                    write_maxlen: 3,
-                    tp_len: if n <= 3 { 2 } else { 1 },
-                    tp_rich: n <= 4,
-                    max_states: 40000,
+                    write_maxlen: if n <= 3 { 3 } else { 2 },
+                    tp_len: if n <= 2 { 2 } else { 1 },
+                    tp_rich: n <= 3,
+                    max_states: if n <= 4 { 6000 } else { 2500 },
                 };
                 explore_sizes!(sc, w, tot, 0, 1, 2, 3, 4, 5);
             } else {
@@ -78,9 +78,9 @@ fn main() {
             gt += t1::grid::<5>(&mut w) + t1::grid::<6>(&mut w) + t1::grid::<7>(&mut w) + t1::grid::<8>(&mut w);
             gt += t1::grid::<16>(&mut w);
             if thorough {
-                gt += t1::grid::<64>(&mut w) + t1::grid::<255>(&mut w);
+                gt += t1::grid::<32>(&mut w) + t1::grid::<64>(&mut w);
             }
-            eprintln!("STAT t1_grid transitions={} sizes=5,6,7,8,16{}", gt, if thorough { ",64,255" } else { "" });
+            eprintln!("STAT t1_grid transitions={} sizes=5,6,7,8,16{}", gt, if thorough { ",32,64" } else { "" });
             let mut rng = Rng(seed);
             let mut wt = 0usize;
             let (walks, steps) = if thorough { (60, 400) } else { (6, 150) };
